@@ -24,6 +24,16 @@ def sched(text, ref):
 
 
 CLAIMED = {
+    'C01': sched('Proof (plain pipelines, full strength on the model): for every solution val of the dataflow equations of the '
+                 'pipeline (node value = retry/default policy applied to the body on the values of its declared sources; a solution '
+                 'exists for every acyclic pipeline, solution_exists) and every execution — any interleaving, completion order, '
+                 'launch order, cancellation point — a returned value is val(output) (C01_plain_value), a reported error is the '
+                 'policy\'s failure of a node of the pipeline (C01_plain_error / _raised), CancelledError only on request, two '
+                 'executions never return different values nor one a value and the other an error (C01_plain_values_agree, '
+                 'C01_plain_value_excludes_failure). From the inductive invariant PInv with value tracking (Att, agree_of_nodes). '
+                 'The driver checks on every generated plain program that the theorem hypotheses hold and that the reference '
+                 'evaluator Sem is a solution. Partial for switch / one-of / recurrent shapes: Sem is compared with the real '
+                 'outcome and every node invocation by the monitors inside the fragments; no theorem there.', '§6 C01'),
     'C02': sched('Proof (plain pipelines, full strength on the model): for every pipeline of Input dependencies (any size / shape, '
                  'any retry / default / mode settings, failures anywhere, collaborators that do not suspend), under every interleaving '
                  'of task sections, every completion order of bodies and timers, every topological launch order and cancellation of '
@@ -38,7 +48,10 @@ CLAIMED = {
                  'LaunchByDepth (the list _get_node_order returns is sorted by depth) is checked on every list the real code '
                  'returns; the conclusion is monitored on schedules that hold all running bodies open and release one at a time.',
                  '§6 C06'),
-    'C03': sched('Proof (general, local tier): in the model a node is launched only in a section where `ready` holds — every '
+    'C03': sched('Proof (plain pipelines, all schedules): every body invocation of a pending run gets exactly the dataflow values of '
+                 'its declared sources, all of which exist, never a failure object or Recurrent marker '
+                 '(C03_plain_invocation_arguments); an exception object stored by a one-of scope fails the consumer instead of being '
+                 'passed on (C03_exception_value_fails_consumer, all programs). General, local tier: in the model a node is launched only in a section where `ready` holds — every '
                  '(resolved) source has a stored, visible, non-Recurrent result — and its kwargs are exactly the stored results '
                  'of its sources under the declared names; the input node gets the caller\'s kwargs (C03_* in Props/C03.lean, all '
                  'programs, all states). That stored results are final is C01\'s invariant (partial: tied and monitored against Sem '
@@ -47,7 +60,9 @@ CLAIMED = {
                  'reachable state executions(n) ≤ 1 + hides(n) (C04_at_most_once_per_iteration, invariant proved by induction over '
                  'all choice sequences); a second request takes the waiting path; consumers read the single stored result.',
                  '§6 C04'),
-    'C05': sched('Proof (general, local tier): the outcome computed by manager.run/chart.run is the exception of a *finished, '
+    'C05': sched('Proof (plain pipelines, all schedules): an error verdict is the retry/default policy\'s failure of a node of the pipeline '
+                 'whose sources all had values (C05_plain_error_is_a_required_node_failure) and a failing node is never masked by a '
+                 'value (C05_plain_failure_is_never_masked). General, local tier: the outcome computed by manager.run/chart.run is the exception of a *finished, '
                  'non-cancelled* engine task (wrapped iff it is an Exception) or, when no task failed, the stored output value '
                  '(C05_* in Props/C05.lean). Partial: that a task fails only if a required node failed is tied by lock-step and '
                  'monitored against Sem in the fragments.', '§6 C05'),
